@@ -65,7 +65,7 @@ PROPS = {
         'level': 'proof',
     },
     'C12': {
-        'modules': ['contracts.c12_legal', 'contracts.c04_model'],
+        'modules': ['contracts.c12_legal', 'contracts.c04_model', 'contracts.c12_runtime'],
         'standins': ['legality'],
         'trusted': PYVC_TRUST,
         'assumptions': ['"g++ compiles it" has no contract formulation: bounded compile run', 'parser-side (prophy text) checks are exercised by the bounded stand-in'],
